@@ -341,3 +341,33 @@ def reaching_defs(fn: ast.AST, name: str, at: ast.stmt, cfg=None) -> List[Tuple[
         if any(s_ == target or cfg.path(s_, target, skip=others, skip_edges=("exc",)) is not None for s_ in start if s_ not in others):
             out.append((st, v))
     return out
+
+
+def expansions(fn: ast.AST, expr: ast.expr, at: ast.stmt, limit: int = 12, depth: int = 8, _cfg=None) -> List[ast.expr]:
+    """All ways of reading `expr` at statement `at` back to the function's inputs: like expand_at, but a local with several
+    reaching definitions (an if/else that binds it in both arms) yields one expansion per definition (at most `limit`)."""
+    from .cfg import build_cfg
+    cfg = _cfg or build_cfg(fn)
+    if depth <= 0:
+        return [expr]
+    bound = {t.id for c in ast.walk(expr) if isinstance(c, ast.comprehension) for t in ast.walk(c.target) if isinstance(t, ast.Name)}
+    bound |= {a.arg for l in ast.walk(expr) if isinstance(l, ast.Lambda) for a in l.args.args + l.args.kwonlyargs}
+    names = []
+    for n in ast.walk(expr):
+        if isinstance(n, ast.Name) and isinstance(n.ctx, ast.Load) and n.id not in bound and n.id not in names:
+            names.append(n.id)
+    options: Dict[str, List[ast.expr]] = {}
+    for nm in names:
+        defs = [(st, v) for st, v in reaching_defs(fn, nm, at, cfg) if v is not None and st is not at]
+        if not defs or len(defs) != len(reaching_defs(fn, nm, at, cfg)):
+            continue
+        outs = []
+        for st, v in defs:
+            outs += expansions(fn, v, st, limit, depth - 1, cfg)
+        options[nm] = outs[:limit]
+    if not options:
+        return [copy.deepcopy(expr)]
+    results = [dict()]
+    for nm, outs in options.items():
+        results = [dict(r, **{nm: o}) for r in results for o in outs][:limit]
+    return [ast.fix_missing_locations(_Subst(r).visit(copy.deepcopy(expr))) for r in results]
